@@ -257,12 +257,17 @@ pub(crate) enum Attack {
     /// the genuine header (the MMR library keeps one leaf per position and drops the others
     /// unverified)
     BpForgedTwin,
+    /// a complete, self-consistent answer built on the OTHER branch (the peer's private chain):
+    /// last header, MMR proof, headers / Merkle proofs all fit each other, only the last header is
+    /// not the requested (proved) one
+    BpPrivateChain,
+    TpPrivateChain,
 }
 
 /// the kinds `gen_step` drew from before kinds were appended (the draw of an old seed keeps its meaning)
 const OLD_ATTACKS: u64 = 34;
 
-pub(crate) const ATTACKS: [Attack; 36] = [
+pub(crate) const ATTACKS: [Attack; 38] = [
     Attack::BpSwapHeader,
     Attack::BpSwapHeaderReproved,
     Attack::BpForgedHeader,
@@ -299,6 +304,8 @@ pub(crate) const ATTACKS: [Attack; 36] = [
     Attack::BlkUnaskedForged,
     Attack::BlkForgedMatchedMissing,
     Attack::BpForgedTwin,
+    Attack::BpPrivateChain,
+    Attack::TpPrivateChain,
 ];
 
 impl Attack {
@@ -1352,6 +1359,49 @@ fn forged_last(chain: &SimChain, last: u64) -> packed::VerifiableHeader {
     vh.as_builder().parent_chain_root(other).build()
 }
 
+/// `BpPrivateChain`: the requested blocks that are on `other`, proved against `other`'s tip
+fn private_bp(other: &SimChain, req: &packed::GetBlocksProof, v1: bool) -> Option<(Bytes, String)> {
+    let last = other.tip_number();
+    if other.header(last).hash() == req.last_hash() {
+        return None;
+    }
+    let mut numbers = Vec::new();
+    let mut missing = Vec::new();
+    for h in req.block_hashes().into_iter() {
+        match other.number_of_hash(&h) {
+            Some(n) if n < last => numbers.push(n),
+            _ => missing.push(h),
+        }
+    }
+    if numbers.is_empty() {
+        return None;
+    }
+    let parts = bp_parts(other, last, &numbers, missing)?;
+    Some((bp_bytes(&parts, v1), format!("BpPrivateChain: blocks {:?} proved against the tip {} of the other branch", numbers, last)))
+}
+
+/// `TpPrivateChain`: the requested transactions that are on `other`, proved against `other`'s tip
+fn private_tp(other: &SimChain, req: &packed::GetTransactionsProof, v1: bool) -> Option<(Bytes, String)> {
+    let last = other.tip_number();
+    if other.header(last).hash() == req.last_hash() {
+        return None;
+    }
+    let mut blocks: BTreeMap<u64, Vec<usize>> = BTreeMap::new();
+    let mut missing = Vec::new();
+    for h in req.tx_hashes().into_iter() {
+        match other.tx_location(&h) {
+            Some((n, i)) if n < last => blocks.entry(n).or_default().push(i),
+            _ => missing.push(h),
+        }
+    }
+    if blocks.is_empty() {
+        return None;
+    }
+    let bl: Vec<(u64, Vec<usize>)> = blocks.into_iter().collect();
+    let parts = tp_parts(other, last, &bl, missing)?;
+    Some((tp_bytes(&parts, v1), format!("TpPrivateChain: transactions of blocks {:?} proved against the tip {} of the other branch", bl.iter().map(|b| b.0).collect::<Vec<_>>(), last)))
+}
+
 /// the mutated answer to a `GetBlocksProof`, `None`: the mutation does not apply to this request
 fn mutate_bp(
     rng: &mut Rng,
@@ -1931,7 +1981,7 @@ impl<'w> Ctx<'w> {
                                     return;
                                 }
                             }
-                        } else if let Some((bytes, note)) = mutate_bp(rng, &self.chains[self.serving], &req, a, v1, &self.forged_h) {
+                        } else if let Some((bytes, note)) = if a == Attack::BpPrivateChain && self.chains.len() >= 2 { private_bp(&self.chains[1 - self.serving.min(1)], &req, v1) } else { mutate_bp(rng, &self.chains[self.serving], &req, a, v1, &self.forged_h) } {
                             *attack = None;
                             self.last_attack = format!("{:?}", a);
                             rep.sample(&note);
@@ -1953,7 +2003,7 @@ impl<'w> Ctx<'w> {
                                     return;
                                 }
                             }
-                        } else if let Some((bytes, note)) = mutate_tp(rng, &self.chains[self.serving], &req, a, v1, &self.forged_t) {
+                        } else if let Some((bytes, note)) = if a == Attack::TpPrivateChain && self.chains.len() >= 2 { private_tp(&self.chains[1 - self.serving.min(1)], &req, v1) } else { mutate_tp(rng, &self.chains[self.serving], &req, a, v1, &self.forged_t) } {
                             *attack = None;
                             self.last_attack = format!("{:?}", a);
                             rep.sample(&note);
@@ -2173,8 +2223,10 @@ impl<'w> Ctx<'w> {
     // ----------------------------------------------------------------------------------------
     // oracles
 
+    /// on a branch a peer has proved to the client so far: the first branch, and the second one
+    /// once the peers have switched to it (before that it is a private chain nobody proved)
     fn on_any_chain(&self, h: &Byte32) -> bool {
-        self.chains.iter().any(|c| c.number_of_hash(h).is_some())
+        self.chains.iter().enumerate().any(|(i, c)| (i == 0 || self.switched) && c.number_of_hash(h).is_some())
     }
 
     /// the attack a block hash / transaction hash that is on no chain stems from
@@ -2224,6 +2276,14 @@ impl<'w> Ctx<'w> {
         let bh: Byte32 = tws.tx_status.block_hash.clone().expect("block hash").pack();
         let tb = self.tip_branch();
         let holder = (0..self.chains.len()).find(|i| self.chains[*i].number_of_hash(&bh).is_some());
+        if holder.is_some() && !self.on_any_chain(&bh) {
+            out.violations.push((
+                format!("C02|committed-in-unproved-block|{}", self.cause()),
+                format!("{} reports a transaction committed in a block of a branch no peer ever proved", what),
+                format!("# tx {} block {}", short(t), short(&bh)),
+            ));
+            return;
+        }
         match holder {
             None => out.violations.push((
                 format!("C02|committed-in-unknown-block|{}", self.cause_of(Some(&bh), Some(t)).unwrap_or_else(|| self.cause())),
@@ -2810,7 +2870,7 @@ pub fn run(opts: &Options, prop: &str) -> Report {
                                     }
                                 }
                             } else if a.is_bp() {
-                                let t = if *a == Attack::BpForgedRequested { Target::Forged } else { Target::OnChain };
+                                let t = if *a == Attack::BpForgedRequested { Target::Forged } else if *a == Attack::BpPrivateChain { Target::OtherBranch } else { Target::OnChain };
                                 for _ in 0..r.range(1, 3) {
                                     if let Some(h) = ctx.pick_header(&mut r, &t) {
                                         ctx.fetch_header(&h, &mut sink, &mut rep);
@@ -2822,7 +2882,7 @@ pub fn run(opts: &Options, prop: &str) -> Report {
                                     }
                                 }
                             } else if a.is_tp() {
-                                let t = if *a == Attack::TpForgedRequested { Target::Forged } else { Target::OnChain };
+                                let t = if *a == Attack::TpForgedRequested { Target::Forged } else if *a == Attack::TpPrivateChain { Target::OtherBranch } else { Target::OnChain };
                                 for _ in 0..r.range(1, 3) {
                                     if let Some(h) = ctx.pick_tx(&mut r, &t) {
                                         ctx.fetch_tx(&h, &mut sink, &mut rep);
